@@ -5,6 +5,16 @@ HERE = os.path.dirname(os.path.dirname(os.path.abspath(__file__)))
 
 # id -> (technique, level text, level note, design ref)
 CHECKS = {
+ "C12": (
+  "hypothesis PBT round trip on generated haplotype records parsed from VCF text + generated-dataset pipeline assemble -> call / call-exact with record-by-record comparison",
+  "Exploration: thousands of generated fixed-length multi-allelic records (incl. ALT-less, SNV-less, tri-allelic columns, SNVPOS supersets, REFMASKED): encode -> format reproduces the sequences, alleles are numbered by first appearance with REF=0, recovered SNV positions are the polymorphic columns; generated datasets assembled under threshold/report variants (REFMASKED, ALT-less records) and piped through call and call-exact: CHROM/POS/REF/ALT unchanged, genotypes complete unless NOA/AF0, masked reference never called.",
+  "Records are parsed by pysam from text as mchap reads them; ALT sequences distinct; pipelines <= 3 loci x 3 samples.",
+  "DESIGN.md §4 C12"),
+ "C13": (
+  "hypothesis PBT with exact rational oracle on generated per-sample posteriors (thresholds drawn on realised occurrence values) + metamorphic CLI relation between a threshold-0 run and thresholded runs with the same seed",
+  "Exploration: generated collections of per-sample posteriors with dyadic probabilities and thresholds in [0,1] (incl. 0, 1 and values equal to a realised occurrence): ALT set is exactly the haplotypes reaching the threshold in some sample, reference first and flagged masked iff it fails, ALT order by summed qualifying dosage (ties free), GT '.' exactly for excluded haplotypes and never allele 0 when masked, GP array of G length over the listed alleles incl. a masked reference with sum <= 1; at CLI level ALT/REFMASKED/GT/AFP/GP of thresholded runs are derived from the threshold-0 run's AOP table.",
+  "Exact Fractions for dyadic inputs; CLI comparison skips haplotypes within the printing precision of the threshold.",
+  "DESIGN.md §4 C13"),
  "C07": (
   "hypothesis-generated datasets x all four calling programs x generated --report sets; strict header-driven text parser + pysam parse + semantic recomputation + differential against in-process internal values",
   "Exploration: every record printed by assemble, call, call-exact and call-pedigree (call* fed with assemble output) on generated datasets (loci without SNVs / reads, mixed ploidy, inbreeding files, reference-masking thresholds, pedigrees) under generated report sets: column count, declared keys, Number=1/A/R/G cardinalities for the record's allele count and each sample's ploidy, Integer/Float lexical form, GT shape/sortedness/range, no python literals; whole output readable by pysam; REF vs FASTA, ALT vs input SNVs and SNVPOS, AC/AN/UAN/NS from GTs, INFO DP/RCOUNT/ACP/AFP/SNVDP from sample columns; every printed float within 0.0005 of the internal value with <=3 decimals.",
